@@ -101,6 +101,8 @@ struct Shared {
     /// Some: appends run under this thread-local `metrics` recorder (global-recorder bridge)
     tl_recorder: Option<CountingRecorder>,
     live_bound: u64,
+    /// the plan's schedule seed: decides per flush request whether the future migrates between wakers
+    run_key: u64,
     hist: History,
     ctl: Arc<StreamCtl>,
     stop: AtomicBool,
@@ -158,22 +160,34 @@ fn do_flush(sh: &Shared, h: &Handle, op: &Value) {
     let start_nexts = sh.ctl.nexts_done.load(Ordering::SeqCst);
     sh.hist.log(K::FlushReq { fid });
     let mut fut = h.flush();
-    let fw = Arc::new(FlushWaker {
-        key: detsim::fresh_key(),
-        woken: AtomicBool::new(false),
-        wakes: AtomicU64::new(0),
-        nexts_at_wake: AtomicU64::new(0),
-        ctl: sh.ctl.clone(),
-    });
-    let waker = Waker::from(fw.clone());
-    let mut cx = Context::from_waker(&waker);
+    let new_waker = || {
+        Arc::new(FlushWaker {
+            key: detsim::fresh_key(),
+            woken: AtomicBool::new(false),
+            wakes: AtomicU64::new(0),
+            nexts_at_wake: AtomicU64::new(0),
+            ctl: sh.ctl.clone(),
+        })
+    };
+    // a quarter of the requests: the future is handed from task to task while it is pending - every poll comes with
+    // a waker of its own, and only the waker of the *latest* poll is ever waited on
+    let migrate = mix(sh.run_key, fid) % 4 == 0;
+    let mut fw = new_waker();
     let bound = sh.live_bound;
     let slice_ns = ju(op, "slice_ns", 10_000).max(1);
     let deadline = op.get("ns").and_then(|x| x.as_u64()).map(|ns| detsim::clock_ns() + ns);
     let mut first = true;
+    let mut polls = 0u64;
     loop {
         detsim::yield_point();
+        if migrate && !first {
+            fw = new_waker();
+            sh.hist.log(K::Note("flush_future_polled_with_another_waker".into()));
+        }
+        let waker = Waker::from(fw.clone());
+        let mut cx = Context::from_waker(&waker);
         fw.woken.store(false, Ordering::SeqCst);
+        polls += 1;
         if let Poll::Ready(()) = Pin::new(&mut fut).poll(&mut cx) {
             let waited = if fw.wakes.load(Ordering::SeqCst) > 0 {
                 fw.nexts_at_wake.load(Ordering::SeqCst).saturating_sub(start_nexts)
@@ -221,7 +235,10 @@ fn do_flush(sh: &Shared, h: &Handle, op: &Value) {
                 let _ = detsim::block_on_key(fw.key, Some(d), detsim::site());
             }
             _ => {
-                let _ = detsim::block_on_key(fw.key, None, detsim::site());
+                // a migrating future is first waited on for a short while only (the task it is part of does
+                // something else, a `select!` arm fires): it is then polled again, pending, with the next waker
+                let slice = if migrate && polls <= 2 { Some(detsim::clock_ns() + slice_ns * polls) } else { None };
+                let _ = detsim::block_on_key(fw.key, slice, detsim::site());
             }
         }
     }
@@ -457,6 +474,7 @@ fn queue_main(plan: &Value, slot: Arc<Mutex<Option<QueueRun>>>) {
         held: Mutex::new(vec![]),
         tl_recorder: if global_tl { Some(recorder.clone()) } else { None },
         live_bound: liveness_bound(plan).unwrap_or(u64::MAX),
+        run_key: ju(plan.get("sched").unwrap_or(&Value::Null), "seed", 0),
         hist: hist.clone(),
         ctl: ctl.clone(),
         stop: AtomicBool::new(false),
